@@ -72,5 +72,55 @@ class AddH(Harness):
         # raising is only allowed when the id clashes
         return [("add/refuse.sound", self._clash(st))]
 
+    def concretise(self, case, k, model, c, st):
+        from .common import _mv, concretise_children
+        fam = st["fam"]
+        kids = concretise_children(model, fam, k, None)
+        pid = _mv(model, st["p"]._var().id.t)
+        ids = [_mv(model, fam.fn("id")(z3.IntVal(j))) for j in range(k)]
+        p = concretise_children(model, st["p"]._fam, 1, None)[0]
+        return {"children": kids, "p": p, "clash_with": ids.index(pid) if pid in ids else None}
+
+    def replay(self, w):
+        import puan
+        import puan.logic.plog as pg
+        import puan.modules.configurator as cc
+        from .common import build_children
+        for d in w["children"] + [w["p"]]:
+            d.setdefault("tv", 0)
+            if d["kind"] == "atom":
+                d["lo"], d["hi"] = 0, 1
+        w["p"]["id"] = "P" + w["p"]["id"]
+        if w["clash_with"] is not None:
+            w["p"]["id"] = w["children"][w["clash_with"]]["id"]
+        kids, _ = build_children(w["children"])
+        p = build_children([w["p"]])[0][0]
+        cfg = cc.StingyConfigurator(*kids, id="cfg")
+        before = cfg.to_text()
+        violated = []
+        try:
+            res = cfg.add(p)
+            raised = False
+        except Exception:
+            raised = True
+        clash = w["clash_with"] is not None
+        if raised and not clash:
+            violated.append("add/refuse.sound")
+        if not raised:
+            if clash:
+                violated.append("add/refuse.complete")
+            ids = sorted(str(x.id) for x in res.propositions)
+            if ids != sorted([str(x.id) for x in kids] + [str(p.id)]):
+                violated.append("add/post.children")
+            if res.value != len(set(ids)):
+                violated.append("add/post.value")
+            if res.id != "cfg":
+                violated.append("add/post.id")
+            if type(res) is not cc.StingyConfigurator:
+                violated.append("add/post.class")
+        if cfg.to_text() != before:
+            violated.append("frame")
+        return {"violated": violated, "detail": {"children": [str(x.id) for x in kids], "added": str(p.id), "raised": raised}}
+
 
 HARNESSES = [AddH()]
